@@ -44,9 +44,132 @@ fn gen_script(r: &mut Rng) -> (u16, u64, Vec<(u64, u64)>) {
     (shard, calls, runs)
 }
 
+/// System stream: two or three process lifetimes of one shard under scripted id clocks.
+/// Compared with the model: the ids every event carries when read back (memory, after WAL
+/// recovery, after flush). Oracle: ids distinct and increasing in append order across lifetimes,
+/// recovered ids equal the originals.
+fn restart_stream(a: &snel_harness::out::Args) {
+    use snel_harness::sys::{Session, SysCfg};
+    let mut s = Stream::create(&a.out, "restart");
+    for i in 0..a.cases {
+        if a.only.is_some_and(|o| o != i) {
+            continue;
+        }
+        let mut r = Rng::for_case(a.seed, "restart", i);
+        let cfg = SysCfg { event_per_zone: 2, fill_factor: 1 + r.below(3) as usize, ..Default::default() };
+        let root = a.out.join(format!("restart-{i}"));
+        let _ = std::fs::remove_dir_all(&root);
+        let lifetimes = 2 + r.below(2);
+        let mut t = EPOCH + 1_000_000 + r.below(1u64 << 40);
+        let mut op = String::from("restart 0");
+        let mut all_ids: Vec<u64> = vec![];       // ids in append order, as first observed
+        let mut k = 0u64;
+        let mut obs = vec![];
+        let mut fail: Option<(String, String)> = None;
+        let mut last_millis_prev: Option<u64> = None;
+        let mut clock_not_later = false;
+        for life in 0..lifetimes {
+            let mut sess = Session::start(&root, &cfg);
+            if life == 0 {
+                assert!(sess.cmd("DEFINE ev FIELDS { k: \"int\" }").map(|x| x.ok()).unwrap_or(false));
+            }
+            // clock of this lifetime: n stores, each reading may repeat / step back
+            let n = 1 + r.below(5);
+            let start = match (life, r.below(4)) {
+                (0, _) => t,
+                (_, 0) => last_millis_prev.unwrap_or(t),                 // same millisecond as before
+                (_, 1) => last_millis_prev.unwrap_or(t).saturating_sub(1 + r.below(20)), // stepped back
+                _ => last_millis_prev.unwrap_or(t) + 1 + r.below(1000),
+            };
+            let mut readings = vec![];
+            let mut cur = start;
+            for _ in 0..n {
+                readings.push(cur);
+                match r.below(4) {
+                    0 => {}
+                    1 => cur = cur.saturating_sub(r.below(3)),
+                    _ => cur += 1 + r.below(5),
+                }
+            }
+            if let Some(prev) = last_millis_prev {
+                if readings.iter().any(|x| *x <= prev) {
+                    clock_not_later = true;
+                }
+            }
+            sess.ctl(serde_json::json!({"ctl": "id_clock", "readings": readings}));
+            op.push_str(&format!(" | L {}", readings.iter().map(|x| x.to_string()).collect::<Vec<_>>().join(",")));
+            for _ in 0..n {
+                k += 1;
+                assert!(sess.cmd(&format!("STORE ev FOR c PAYLOAD {{\"k\":{k}}}")).map(|x| x.ok()).unwrap_or(false));
+            }
+            if r.chance(1, 3) {
+                sess.ctl(serde_json::json!({"ctl": "await_flush"}));
+                let _ = sess.cmd("FLUSH");
+                op.push_str(" | F");
+            }
+            sess.ctl(serde_json::json!({"ctl": "await_flush"}));
+            // read back ids by key
+            let q = sess.cmd("QUERY ev RETURN [k]").expect("query");
+            let ks = q.col("k");
+            let ids = q.col("event_id");
+            let mut pairs: Vec<(i64, u64)> = ks.iter().zip(ids.iter()).filter_map(|(a, b)| Some((a.as_i64()?, b.as_u64()?))).collect();
+            pairs.sort();
+            pairs.dedup();
+            // compared observation: the set of distinct ids returned (which of two events that
+            // share an id survives the response writer's dedup depends on flow arrival order)
+            let mut idset: Vec<u64> = pairs.iter().map(|(_, id)| *id).collect();
+            idset.sort();
+            idset.dedup();
+            obs.push(idset.iter().map(|id| id.to_string()).collect::<Vec<_>>().join(","));
+            op.push_str(" | Q");
+            // oracle bookkeeping
+            for (kk, id) in &pairs {
+                let idx = (*kk - 1) as usize;
+                if idx < all_ids.len() {
+                    if all_ids[idx] != *id && fail.is_none() {
+                        fail = Some(("-".into(), format!("event k={kk} changed its id from {} to {id}", all_ids[idx])));
+                    }
+                } else {
+                    all_ids.push(*id);
+                }
+            }
+            if (pairs.len() as u64) < k && fail.is_none() {
+                // fewer rows than stored: two events share one id (dedup) when the clock was not later
+                let class = if clock_not_later { "restart-clock-not-later" } else { "-" };
+                fail = Some((class.into(), format!("{} of {k} stored events returned (duplicate ids)", pairs.len())));
+            }
+            last_millis_prev = Some(*readings.iter().max().unwrap());
+            t = last_millis_prev.unwrap();
+            // wait until the WAL has the entries, then kill
+            let t0 = std::time::Instant::now();
+            while sess.ctl(serde_json::json!({"ctl": "hits", "point": "wal.appended"})).and_then(|v| v["hits"].as_u64()).unwrap_or(0) < n
+                && t0.elapsed().as_secs() < 10
+            {
+                std::thread::sleep(std::time::Duration::from_millis(2));
+            }
+            sess.kill();
+        }
+        if fail.is_none() && !all_ids.windows(2).all(|w| w[0] < w[1]) {
+            let class = if clock_not_later { "restart-clock-not-later" } else { "-" };
+            fail = Some((class.into(), format!("ids not strictly increasing in append order: {all_ids:?}")));
+        }
+        let _ = std::fs::remove_dir_all(&root);
+        s.tally_n("lifetimes", lifetimes);
+        if clock_not_later { s.tally("clock_not_later_after_restart"); }
+        s.case(&op, &obs.join(" ; "), true);
+        match fail {
+            None => s.oracle_ok(),
+            Some((c, d)) => s.oracle_fail(i, &c, &format!("{d}; {op}")),
+        }
+    }
+    s.finish();
+}
+
 fn main() {
+    snel_harness::sys::maybe_child();
     let a = parse_args();
     match a.stream.as_str() {
+        "restart" => restart_stream(&a),
         "idgen" => {
             let mut s = Stream::create(&a.out, "idgen");
             for i in 0..a.cases {
